@@ -1398,6 +1398,8 @@ struct RRunOut {
     stalled: bool,
     blocked_polls: usize,
     stats: Vec<std::collections::HashMap<String, SymbolStats>>,
+    /// violations of the statistics invariant seen after some poll
+    stats_findings: Vec<String>,
 }
 
 fn counters_now(w: &RWorld, sh: &RShared) -> Vec<(u64, u64, u64, u64)> {
@@ -1462,6 +1464,7 @@ fn rrun_scheduled(c: &RCase) -> RRunOut {
         stalled: false,
         blocked_polls: 0,
         stats: vec![],
+        stats_findings: vec![],
     };
     let mut seen_events = 0usize;
     let mut last_stats: Vec<String> = vec![String::new(); w.syms.len()];
@@ -1485,7 +1488,13 @@ fn rrun_scheduled(c: &RCase) -> RRunOut {
         // the statistics map of every provider whose map changed during this poll
         let mut stats_delta = String::new();
         for (p, sy) in w.syms.iter().enumerate() {
-            let now = stats_str(&sy.stats());
+            let st = sy.stats();
+            if out.stats_findings.is_empty() {
+                if let Some(f) = stats_check(&w.cx.c, p, &st, &shg.events) {
+                    out.stats_findings.push(format!("after poll #{}: {f}", out.counters.len() - 1));
+                }
+            }
+            let now = stats_str(&st);
             if now != last_stats[p] {
                 stats_delta.push_str(&format!("S{p}:{now}"));
                 last_stats[p] = now;
@@ -1602,8 +1611,33 @@ fn rrun_runtime(c: &RCase) -> RRunOut {
         stalled: !done,
         blocked_polls: 0,
         stats: w.syms.iter().map(|s| s.stats()).collect(),
+        stats_findings: vec![],
     }
 }
+
+/// `stats()` of provider `p` against the supplier calls that have RETURNED so far: every module whose
+/// lookup returned has an entry with its outcome, and there is no entry for anything else
+fn stats_check(c: &RCase, p: usize, st: &std::collections::HashMap<String, SymbolStats>, events: &[REv]) -> Option<String> {
+    let returned: BTreeSet<usize> = events.iter().filter_map(|e| match e { REv::Ret(q, k) if *q == p => Some(*k), _ => None }).collect();
+    for k in &returned {
+        if c.leaf_shared(*k) {
+            continue;
+        }
+        let want = c.sym.get(&(p, *k)).map(|v| v.1.class()).unwrap_or(Res::Nf).s();
+        let got = st.get(&c.mods[*k].leaf()).map(stat_class).unwrap_or("absent");
+        if got != want {
+            return Some(format!("provider {p}: stats[{:?}] says {got} but the remembered outcome of module {k} is {want}", c.mods[*k].leaf()));
+        }
+    }
+    let leaves: BTreeSet<String> = returned.iter().map(|k| c.mods[*k].leaf()).collect();
+    for key in st.keys() {
+        if !leaves.contains(key) {
+            return Some(format!("provider {p}: stats has an entry {key:?} although no lookup of a module with that leaf name has returned"));
+        }
+    }
+    None
+}
+
 
 /// the property's oracle on the implementation's behaviour alone. "Module" = identity
 /// (code file, code id, debug file, debug id) of the case's module table, not any key of the code.
@@ -1737,23 +1771,14 @@ fn roracle(c: &RCase, r: &RRunOut) -> Vec<(String, String)> {
         }
     }
     // (6) the statistics of a provider reflect the one remembered outcome of each module — as far as the
-    //     leaf-name key tells modules apart (modules sharing a leaf: finding F16, owned by C13)
+    //     leaf-name key tells modules apart (modules sharing a leaf: finding F16, owned by C13); checked
+    //     after every poll (`stats_findings`) and at the end
+    if let Some(f) = r.stats_findings.first() {
+        o.push(("stats-mismatch".into(), f.clone()));
+    }
     for (p, st) in r.stats.iter().enumerate() {
-        for (q, k) in r.calls.keys() {
-            if *q != p || c.leaf_shared(*k) {
-                continue;
-            }
-            let want = sym_class(p, *k).s();
-            let got = st.get(&c.mods[*k].leaf()).map(stat_class).unwrap_or("absent");
-            if got != want {
-                o.push(("stats-mismatch".into(), format!("provider {p}: stats[{:?}] says {got} but the remembered outcome of module {k} is {want}", c.mods[*k].leaf())));
-            }
-        }
-        let leaves: BTreeSet<String> = r.calls.keys().filter(|(q, _)| *q == p).map(|(_, k)| c.mods[*k].leaf()).collect();
-        for key in st.keys() {
-            if !leaves.contains(key) {
-                o.push(("stats-mismatch".into(), format!("provider {p}: stats has an entry {key:?} for a module that was never looked up")));
-            }
+        if let Some(f) = stats_check(c, p, st, &r.events) {
+            o.push(("stats-mismatch".into(), format!("at the end: {f}")));
         }
     }
     o
